@@ -668,6 +668,7 @@ def run(chk):
 
 
 def replay(chk, rep):
+    chk.extract()
     extract_group(chk)
     model = chk.model_exe()
     cfg = rep.get('config', {'cxx': 'g++', 'std': 'c++17'})
